@@ -38,6 +38,11 @@ pub fn exec(t: &[&str]) -> Option<String> {
             (Some(a), Some(b)) => hex(&KeyGenerator::from_key(&ViewPair { view: a, spend: b }, b).rv.to_bytes()),
             _ => e(),
         },
+        // the point arrives in consensus (wire) form, as a transaction key does: `deserialize::<PublicKey>` then the derivation
+        ["c10_derive_wire", a, b] => match (sk(a), hex::decode(b).ok().and_then(|w| monero::consensus::encode::deserialize::<PublicKey>(&w).ok())) {
+            (Some(a), Some(b)) => hex(&KeyGenerator::from_key(&ViewPair { view: a, spend: b }, b).rv.to_bytes()),
+            _ => e(),
+        },
         ["c10_derive_sender", r, v] => match (sk(r), pk(v)) {
             (Some(r), Some(v)) => hex(&KeyGenerator::from_random(v, v, r).rv.to_bytes()),
             _ => e(),
@@ -203,7 +208,10 @@ pub fn run_c10(o: &mut Out, tier: &str, seed: u64) {
             let got = o.op(format!("c10_derive {} {}", sh(&a), ph(&b)), nontrivial);
             let want = derivation(&a, &b);
             o.direct(got == ph(&want), "c10: from_key((a,_),B).rv == (a*B).mul_by_cofactor() [dalek]", format!("{} {}", sh(&a), ph(&b)), got.clone(), ph(&want));
-            o.direct(got == ph(&torsion_free), "c10: derivation(a, B'+T) == derivation(a, B') = 8a*B'", format!("{} {} T{}", sh(&a), ph(&bp), ti), got, ph(&torsion_free));
+            o.direct(got == ph(&torsion_free), "c10: derivation(a, B'+T) == derivation(a, B') = 8a*B'", format!("{} {} T{}", sh(&a), ph(&bp), ti), got.clone(), ph(&torsion_free));
+            if ti != 1 && ti != 4 { continue; }
+            let wire = o.op(format!("c10_derive_wire {} {}", sh(&a), ph(&b)), nontrivial);
+            o.direct(wire == got, "c10: the derivation from a key received in consensus form == the derivation from the same key bytes", format!("{} {}", sh(&a), ph(&b)), wire, got);
         }
         // sender / receiver symmetry on a wallet: V = v*G (+T), R = r*G
         let (v, r) = (a, rand_scalar(&mut rng));
@@ -242,6 +250,7 @@ pub fn run_c09(o: &mut Out, tier: &str, seed: u64) {
     let mut rng = Rng::new(seed ^ 0xc09);
     let wallets: u64 = if tier == "thorough" { 100 } else { 10 };
     o.notes.push("c09: wallets x 10 positions x 5 indices; the sender is re-implemented on dalek/tiny-keccak (derivation with mul_by_cofactor, varint, Hs, subaddress keys); direct check recover(..)*G == sender-built output key; every 5th case additionally uses a transaction key with a small-order component (checked against Hs(8vR ‖ n)G + S')".into());
+    run_c09_scenarios(o, &mut rng, if tier == "thorough" { 300 } else { 40 });
     for w in 0..wallets {
         let (v, _) = strat_scalar(&mut rng, if w < 5 { w } else { 15 });
         let (s, _) = strat_scalar(&mut rng, if (5..10).contains(&w) { w - 5 } else { 15 });
@@ -281,12 +290,59 @@ pub fn run_c09(o: &mut Out, tier: &str, seed: u64) {
     }
 }
 
+/// C09 through the scanner: transactions built by the independent sender of c07.rs (main key + additional keys, subaddress
+/// destinations, tagged/untagged, torsioned keys), scanned by the library; every output it reports as owned is handed to
+/// `OwnedTxOut::recover_key` and the result times G must be that output's one-time public key.
+fn run_c09_scenarios(o: &mut Out, rng: &mut Rng, count: usize) {
+    use monero::blockdata::transaction::TxOutTarget;
+    for k in 0..count {
+        let cross = if k % 7 == 6 { 128 } else { 0 };
+        let line = crate::c07::gen_scenario(rng, cross, None, None, true).replacen("c07_scenario", "c09_scenario", 1);
+        let toks: Vec<&str> = line.split(' ').collect();
+        let s = match crate::c07::scenario(&toks[1..]) { Some(s) => s, None => continue };
+        let got = o.op(line.clone(), true);
+        o.stat(if got.contains(" err ") { "c09.scenario.err" } else if got.contains(" ok 0") { "c09.scenario.none-owned" } else { "c09.scenario.owned" });
+        let parts: Vec<&str> = got.split(' ').collect();
+        if parts.len() >= 3 && parts[1] == "ok" {
+            for e in &parts[3..] {
+                let (pos, x) = match e.split_once(':') { Some(p) => p, None => continue };
+                let pos: usize = pos.parse().unwrap_or(usize::MAX);
+                let key = s.prefix.outputs.get(pos).map(|t| match &t.target { TxOutTarget::ToKey { key } => *key, TxOutTarget::ToTaggedKey { key, .. } => *key });
+                let xg = from_hex_scalar(x).map(|x| (x * G).compress().to_bytes());
+                o.direct(xg.is_some() && xg == key, "c09: recover_key(owned output)*G == that output's one-time public key (scanned transaction)",
+                    trunc(&line, 400), xg.map(|b| hex(&b)).unwrap_or(x.to_string()), key.map(|k| hex(&k)).unwrap_or("no such output".into()));
+                o.stat("c09.scenario.recovered");
+            }
+        }
+    }
+}
+
 pub fn run_c11(o: &mut Out, tier: &str, seed: u64) {
     let mut rng = Rng::new(seed ^ 0xc11);
     let wallets: u64 = if tier == "thorough" { 120 } else { 20 };
     let strata = [0u32, 1, 0xff, 0x100, 0xffff, 0x10000, u32::MAX];
     let nets: [(&str, u8); 4] = [("Mainnet", 42), ("Testnet", 63), ("Stagenet", 36), ("None", 42)];
     o.notes.push("c11: wallets x 49 stratified indices x (3 networks + None) all checked in Rust, one network per (wallet, index) in rotation (all four for the first two wallets) also through the Lean model/spec; direct checks: public keys == G * secret keys; keys == S + Hs(\"SubAddr\\0\"‖v‖i‖j)G, v*S' [dalek]; address text == base58(tag ‖ S' ‖ V' ‖ keccak[..4]) with the subaddress tags 42/63/36 at every index (at (0,0) the keys are the primary keys; Monero's wallet would print the Standard-typed address there — observation, DESIGN.md §8)".into());
+    // neighbours that share a component: consecutive derivations for wallets with the same spend key and different view keys,
+    // the same view key and different spend keys, at the same index (index-major order) — what a memo keyed on part of the
+    // wallet would confuse. Checked against the dalek formulas.
+    for k in 0..(if tier == "thorough" { 60 } else { 12 }) {
+        let (v1, v2) = (rand_scalar(&mut rng), rand_scalar(&mut rng));
+        let (s1, s2) = (rand_scalar(&mut rng), rand_scalar(&mut rng));
+        let (i, j) = if k % 3 == 0 { (0u32, 1 + rng.below(3) as u32) } else { (rng.below(4) as u32, 1 + rng.below(50) as u32) };
+        for (v, s) in [(v1, s1), (v2, s1), (v2, s2), (v1, s2), (v1, s1)] {
+            let s_pub = s * G;
+            o.stat("c11.shared-component-neighbours");
+            let pubs = o.op(format!("c11_sub_pub {} {} {} {}", sh(&v), ph(&s_pub), i, j), true);
+            let d = dest_at(&v, &s_pub, i, j);
+            let want = format!("{} {}", ph(&d.0), ph(&d.1));
+            o.direct(pubs == want, "c11: (V', S') == (v*S', S + m*G) [dalek], consecutive wallets sharing a key", format!("v={} s={} i={} j={}", sh(&v), sh(&s), i, j), pubs, want);
+            let line = format!("c11_sub_addr {} {} {} {} Mainnet", sh(&v), ph(&s_pub), i, j);
+            let got = o.op(line, true);
+            let want = hex(address_text(42, &d.1, &d.0).as_bytes());
+            o.direct(got == want, "c11: address text [dalek keys], consecutive wallets sharing a key", format!("v={} s={} i={} j={}", sh(&v), sh(&s), i, j), got, want);
+        }
+    }
     for w in 0..wallets {
         let (v, _) = strat_scalar(&mut rng, if w < 5 { w } else { 15 });
         let (s, _) = strat_scalar(&mut rng, if (5..10).contains(&w) { w - 5 } else { 15 });
